@@ -329,7 +329,8 @@ TExit ==
                 \cup (IF \E f \in ToS(g.srcs) \cup AllOuts(g) \cup {DepfilePath(St(g, i)) : i \in {j \in Ids(g) : St(g, j).deps \in {"depfile", "gcc"}}} :
                             Exists(T, f) # Exists(iv.T0, f) \/ (Exists(T, f) /\ Ent(T, f) # Ent(iv.T0, f))
                       THEN {V("C19", "a dry run changed a source, an output or a depfile", "")} ELSE {})
-                \cup (IF E.logs.blog # iv.loaded.blog \/ E.logs.dlog # iv.loaded.dlog THEN {V("C19", "a dry run changed the meaning of a log", "")} ELSE {})
+                \cup (IF {<<E.logs.blog[k].o, E.logs.blog[k].m, E.logs.blog[k].h>> : k \in DOMAIN E.logs.blog} # {<<iv.loaded.blog[k].o, iv.loaded.blog[k].m, iv.loaded.blog[k].h>> : k \in DOMAIN iv.loaded.blog}
+                         \/ E.logs.dlog # iv.loaded.dlog THEN {V("C19", "a dry run changed the meaning of a log", "")} ELSE {})
                 \cup (IF iv.acyc /\ ~relax /\ ~taint /\ ~iv.missingSrc /\ ok /\ (~(iv.exp \subseteq iv.stStarted) \/ (~restatInNeed /\ iv.stStarted # iv.exp))
                       THEN {V("C19", "the commands listed by the dry run are not those a real build runs",
                                IF iv.kfT # {} /\ iv.stStarted = iv.expNoF THEN "KF-FAIL-TOUCHED" ELSE IF kfSkipOf(iv.stStarted) THEN "KF-DEPS-SKIPPED" ELSE "")} ELSE {})
